@@ -541,6 +541,14 @@ def observe_results(driver, results, record) -> tuple:
     return dumps(results), feats
 
 
+def reuse_view(record):
+    """ the record of the earlier run as main.read_data hands it to the modules of a run with --reuse-results: the
+        annotated record with antiSMASH's own annotations stripped again (the stand-in genes of these records cannot pass
+        through a results file themselves, so the record object is the one the earlier run annotated) """
+    record.strip_antismash_annotations()
+    return record
+
+
 def replay(kind: str, case: dict, env: dict, hist: list, workdir: str, keep_texts: bool = False) -> list:
     """ hist: [{"a": action, "c": context in force after it}]. Returns the logged steps (see Reuse_Trace.tla); stops before
         an action that does not apply to the real state (e.g. Save after results were dropped). """
@@ -553,6 +561,7 @@ def replay(kind: str, case: dict, env: dict, hist: list, workdir: str, keep_text
     held_schema = 0
     saved_text = None
     saved_schema = 0
+    annotated = None       # (record context, the record as the run that produced the held results left it)
     steps = []
     blank = {"o": "", "exc": "", "msg": "", "js": "", "ef": "", "fj": "", "fe": "", "hits": [], "kept": [], "lab": {"a": 0, "b": 1}}
     for entry in hist:
@@ -580,6 +589,7 @@ def replay(kind: str, case: dict, env: dict, hist: list, workdir: str, keep_text
                     step.update(exc="run:" + exc_text(err), msg=exc_message(err))     # still the module's own run path
                     held = None
                 else:
+                    annotated = (c["rec"], record)
                     try:
                         text = dumps(held)
                         step.update(js=digest(text), ef=digest(repr(feats)), summary=summary(feats), size=len(text))
@@ -612,6 +622,12 @@ def replay(kind: str, case: dict, env: dict, hist: list, workdir: str, keep_text
             try:
                 options = driver.options(case, env, c, workdir)
                 record = driver.record(case, env, c)
+                if kind == "rules" and annotated is not None and annotated[0] == c["rec"] and len(steps) % 2:
+                    # every other time the record is what a run with --reuse-results works on: the annotated record of the
+                    # earlier run with antiSMASH's annotations stripped again
+                    record = reuse_view(annotated[1])
+                    if case.get("subregion"):   # (what another module had put there is put there again by that module)
+                        record.add_subregion(SubRegion(FeatureLocation(0, case["scene"]["L"], 1), tool="verif", label="whole record"))
             except Exception as err:  # pylint: disable=broad-except
                 raise MachineryError(f"could not materialise {kind} case for regeneration: {err!r}") from err
             with _Patched(driver.patches(case, env, c, workdir)):
@@ -631,6 +647,7 @@ def replay(kind: str, case: dict, env: dict, hist: list, workdir: str, keep_text
                 if held is not None:
                     try:
                         text, feats = observe_results(driver, held, record)
+                        annotated = (c["rec"], record)
                         step.update(js=digest(text), ef=digest(repr(feats)), summary=summary(feats), size=len(text))
                         if keep_texts:
                             step["text"] = text
